@@ -94,13 +94,13 @@ func (e *Explorer) NoteTerminal(h [2]uint64) {
 }
 
 // ReplayChoices re-executes a recorded run (indexes into the full enabled list).
-func ReplayChoices(main func(), choices []int, log bool) *RunResult {
+func ReplayChoices(main func(), choices []int, log bool, maxSteps int) *RunResult {
 	return RunOnce(main, func(s *Sched, en []Trans, step int) int {
 		if step >= len(choices) {
 			return -1
 		}
 		return choices[step]
-	}, log, len(choices)+1)
+	}, log, maxSteps)
 }
 
 // ReplayKeys follows a behaviour given as transition keys (TLC replay): the
@@ -136,4 +136,20 @@ func (s *Sched) ChanState(id string) (n int, closed, ok bool) {
 		}
 	}
 	return 0, false, false
+}
+
+// PendInfo is the pending operation of one live goroutine (for step hooks).
+type PendInfo struct {
+	ID, Label, Op, Ch string
+}
+
+// Pendings lists the live goroutines with their pending operations.
+func (s *Sched) Pendings() []PendInfo {
+	var ps []PendInfo
+	for _, g := range s.gs {
+		if g.live {
+			ps = append(ps, PendInfo{g.ID, g.Label, g.pend.Kind, chID(g.pend.Ch)})
+		}
+	}
+	return ps
 }
